@@ -141,6 +141,7 @@ theorem subst_retag (o : Opts) (σ : SymVals K) : ∀ t : CTerm K,
   | .ifElse c t f => by simp [subst, retag, subst_retag o σ c, subst_retag o σ t, subst_retag o σ f]
   | .vcat ts => by simp [subst, retag, substs_retag o σ ts]
   | .map m i vals tr body => by simp [subst, retag, subst_retag o σ body]
+  | .mapAt m i v body => by simp [subst, retag, subst_retag o σ body]
   | .call inl fn args => by simp [subst, retag, substs_retag o σ args]
 theorem substs_retag (o : Opts) (σ : SymVals K) : ∀ ts : CTerms K,
     substs (retagVals o σ) (retags o ts) = retags o (substs σ ts)
@@ -263,10 +264,7 @@ theorem genStmt_retag (P : Prims K) (o o' : Opts) (T : FTab K) (s : Stmt K) :
         cases genRhs P o T body with
         | error e => rfl
         | ok rhs =>
-          simp only [emap_ok]
-          split
-          · simp [retagVals]
-          · simp [retagVals, retag, retags_ofList, List.map_flatMap, Function.comp_def]
+          simp [retagVals, retag, List.map_flatMap, Function.comp_def]
 
 theorem genStmts_retag (P : Prims K) (o o' : Opts) (T : FTab K) : ∀ (ss : List (Stmt K)) (vals : SymVals K),
     genStmts P o' (retagTab o' T) ss (retagVals o' vals) = (genStmts P o T ss vals).map (retagVals o')
